@@ -74,6 +74,52 @@ pub fn huge_obs() -> Vec<Obs> {
     (0..48_000).map(|i| Obs::F((i as f64 + 0.123456789012345) * 1e-300)).collect()
 }
 
+/// Entries scaled past the sizes the small alphabets reach: `n` per-metric dimension sets,
+/// `n` metrics in one record, `n` string properties, for `n` around powers of two (bit masks,
+/// inline capacities); each valid, and with one metric written twice (in the first, a middle
+/// and the last dimension set / position).
+pub fn scaled_entries(cfg: &CfgD, tier: Tier) -> Vec<(String, EntryD)> {
+    let sizes: &[usize] = match tier {
+        Tier::Quick => &[31, 32, 33, 63, 64, 65, 130],
+        Tier::Thorough => &[7, 8, 9, 15, 16, 17, 31, 32, 33, 63, 64, 65, 127, 128, 129, 255, 256, 257, 600],
+    };
+    let m = |v: u64, dims: Vec<(String, String)>| ValD::Metric { obs: vec![Obs::U(v)], unit: UnitD::None, dims, flag: FlagD::None };
+    let mut out = Vec::new();
+    for &n in sizes {
+        // n dimension sets, the same metric name in each
+        let sets: Vec<(String, ValD)> = (0..n).map(|i| (s("M"), m(i as u64, vec![(s("k"), format!("v{i}"))]))).collect();
+        out.push((format!("{n}-dimension-sets"), build_entry(cfg, frame_minimal(), sets.clone())));
+        for j in [0, n / 2, n - 1] {
+            let mut e = build_entry(cfg, frame_minimal(), sets.clone());
+            e.ops.push(OpD::Value(s("M"), m(999, vec![(s("k"), format!("v{j}"))])));
+            out.push((format!("{n}-dimension-sets+duplicate-in-set-{j}"), e));
+        }
+        // n metrics in one record
+        let wide: Vec<(String, ValD)> = (0..n).map(|i| (format!("M{i}"), m(i as u64, vec![]))).collect();
+        out.push((format!("{n}-metrics"), build_entry(cfg, frame_minimal(), wide.clone())));
+        for j in [0, n / 2, n - 1] {
+            let mut e = build_entry(cfg, frame_minimal(), wide.clone());
+            e.ops.push(OpD::Value(format!("M{j}"), m(999, vec![])));
+            out.push((format!("{n}-metrics+duplicate-of-{j}"), e));
+        }
+        // n string properties, one of them written twice
+        let strs: Vec<(String, ValD)> = (0..n).map(|i| (format!("S{i}"), ValD::Str(format!("t{i}")))).collect();
+        let mut e = build_entry(cfg, frame_minimal(), strs);
+        out.push((format!("{n}-strings"), e.clone()));
+        e.ops.push(OpD::Value(format!("S{}", n - 1), ValD::Str(s("again"))));
+        out.push((format!("{n}-strings+duplicate-of-last"), e));
+    }
+    out
+}
+
+/// configurations for the scaled entries
+pub fn scaled_configs() -> Vec<CfgD> {
+    let mut rich = CfgD::simple(Ctor::Builder);
+    rich.namespaces = vec![s("NS"), s("N\"2")];
+    rich.default_dims = vec![vec![], vec![s("A")]];
+    vec![CfgD::simple(Ctor::AllValidations), CfgD::simple(Ctor::NoValidations), rich]
+}
+
 /// a reduced observation alphabet for multi-value layers
 pub fn obs_small() -> Vec<Obs> {
     vec![
